@@ -344,3 +344,81 @@ Proof.
   { apply H. apply init_inv. exact Hd. intro u0. unfold loads_of. simpl. lia. }
   specialize (Hs u). destruct (mem_nat u (g_cache (run load sched (init true progs)))); lia.
 Qed.
+
+(* ================================================================================================ *)
+(** * The refutations are relational races too (schedules without any lock operation) *)
+
+Fixpoint tid_of (evs : list (nat * nat * kind)) (i : nat) : option nat :=
+  match evs with
+  | [] => None
+  | (j, t, _) :: r => if Nat.eqb i j then Some t else tid_of r i
+  end.
+
+Definition no_sync (evs : list (nat * nat * kind)) : Prop :=
+  forall i t s, ~ In (i, t, KSync s) evs.
+
+Lemma tid_of_in : forall evs i t k, NoDup (map (fun x => fst (fst x)) evs) -> In (i, t, k) evs -> tid_of evs i = Some t.
+Proof.
+  induction evs as [|[[j tj] kj] r IH]; intros i t k Hnd Hin; simpl in *. contradiction.
+  inversion Hnd as [|? ? Hnot Hnd']; subst. destruct Hin as [Hin|Hin].
+  - inversion Hin; subst. rewrite Nat.eqb_refl. reflexivity.
+  - destruct (Nat.eqb i j) eqn:E.
+    + apply Nat.eqb_eq in E. subst j. exfalso. apply Hnot. apply in_map_iff. exists (i, t, k). split. reflexivity. exact Hin.
+    + eapply IH; eassumption.
+Qed.
+
+(* without lock operations happens-before is program order: it never relates events of different goroutines *)
+Lemma hb_no_sync_same_thread : forall evs i j,
+  NoDup (map (fun x => fst (fst x)) evs) -> no_sync evs -> hb evs i j ->
+  exists t, tid_of evs i = Some t /\ tid_of evs j = Some t.
+Proof.
+  intros evs i j Hnd Hns H. induction H.
+  - exists t. split; eapply tid_of_in; eassumption.
+  - exfalso. eapply Hns. eassumption.
+  - destruct IHhb1 as [t1 [Ha Hb]]. destruct IHhb2 as [t2 [Hc Hd]]. rewrite Hb in Hc. inversion Hc; subst.
+    exists t2. split; assumption.
+Qed.
+
+Lemma no_sync_of_empty : forall hist, no_sync (evs_of hist []).
+Proof.
+  intros hist i t s Hin. unfold evs_of in Hin. rewrite app_nil_r in Hin. apply in_map_iff in Hin.
+  destruct Hin as [e [He _]]. discriminate.
+Qed.
+
+Ltac solve_nodup := vm_compute; repeat (constructor; [simpl; intuition discriminate|]); constructor.
+
+Theorem unlocked_cache_relational_race :
+  exists (progs : list (list op)) (sched : list nat), relational_race (run (fun u => u) sched (init false progs)).
+Proof.
+  exists [[OGet 1]; [OGet 1]], [0; 1; 0; 1].
+  (* goroutine 1 reads the cache map (event 1), goroutine 0 writes it (event 3): no lock operation anywhere *)
+  exists {| ev_id := 1; ev_tid := 1; ev_acc := Rd LCache |}, {| ev_id := 3; ev_tid := 0; ev_acc := Wr LCache |}.
+  split. vm_compute. intuition.
+  split. vm_compute. intuition.
+  split. simpl. lia.
+  split. simpl. discriminate.
+  split. reflexivity.
+  intro Hhb. apply hb_no_sync_same_thread in Hhb.
+  - destruct Hhb as [t [H1 H2]]. vm_compute in H1. vm_compute in H2. rewrite <- H1 in H2. discriminate.
+  - solve_nodup.
+  - unfold all_events. change (g_sync (run (fun u => u) [0; 1; 0; 1] (init false [[OGet 1]; [OGet 1]]))) with (@nil sevent).
+    apply no_sync_of_empty.
+Qed.
+
+Theorem shared_lazy_relational_race :
+  exists (progs : list (list op)) (sched : list nat), relational_race (run (fun u => u) sched (init true progs)).
+Proof.
+  exists [[OLazy 0]; [OLazy 0]], [0; 1; 0; 1].
+  (* goroutine 1 reads the guard field (event 1), goroutine 0 writes it (event 2) *)
+  exists {| ev_id := 1; ev_tid := 1; ev_acc := Rd (LLazy 0) |}, {| ev_id := 2; ev_tid := 0; ev_acc := Wr (LLazy 0) |}.
+  split. vm_compute. intuition.
+  split. vm_compute. intuition.
+  split. simpl. lia.
+  split. simpl. discriminate.
+  split. reflexivity.
+  intro Hhb. apply hb_no_sync_same_thread in Hhb.
+  - destruct Hhb as [t [H1 H2]]. vm_compute in H1. vm_compute in H2. rewrite <- H1 in H2. discriminate.
+  - solve_nodup.
+  - unfold all_events. change (g_sync (run (fun u => u) [0; 1; 0; 1] (init true [[OLazy 0]; [OLazy 0]]))) with (@nil sevent).
+    apply no_sync_of_empty.
+Qed.
